@@ -128,6 +128,7 @@ def _strategies():
             "form": st.sampled_from(["name"] * 10 + ["module", "module", "missing_mod", "missing_name", "cycle", "modcycle"]),
             "exp": st.sampled_from([True, True, True, False]),
             "rel": st.sampled_from([False, False, True]),
+            "tc": st.sampled_from([False, False, True]),  # written under `if TYPE_CHECKING:` (only kept when listed in __all__)
         }
     )
     star = st.fixed_dictionaries({"k": st.just("star"), "mod": small})
@@ -372,6 +373,12 @@ def analyse(case: dict) -> dict:
         classes.append("pkg:public-wildcard-reexport")
     if any(k_ == "cls" and opkg.ent[par][0] == "cls" for _p, (k_, _n, par) in opkg.ent.items() if par):
         classes.append("pkg:nested-class")
+    guarded = [p_ for p_, (k_, n_, _par) in opkg.ent.items() if k_ == "imp" and n_.get("tc")]
+    if any(p_ in ed.sure.tags for p_ in guarded):
+        classes.append("pkg:public-type-guarded-reexport")
+    for e in expectations:
+        if e["ent"] in guarded or any(p_ in guarded for p_ in e["paths"]):
+            classes.append(f"expect:{e['op']}:through-type-guarded-reexport")
     cimps = [p_ for p_, (k_, _n, par) in opkg.ent.items() if k_ == "imp" and par and opkg.ent[par][0] == "cls"]
     if any(opkg.ent[p_][2] in ed.sure.tags for p_ in cimps):
         classes.append("pkg:class-level-import-in-public-class")
